@@ -49,6 +49,7 @@ def superset_A():
         {"op": "press_control", "id": "pc0", "from": "j2", "to": "j6", "controlled": "j6", "p_bar": 4.0,
          "check_controllability": False},
         {"op": "pipe", "id": "p4", "from": "j6", "to": "j3", "length_km": 0.5, "d_mm": 40.0},
+        {"op": "pipe", "id": "p5", "from": "j0", "to": "j1", "length_km": 0.9, "d_mm": 45.0},   # longer parallel to p0, created later
         {"op": "sink", "id": "s2", "junction": "j2", "mdot": 0.2},
         {"op": "sink", "id": "s3", "junction": "j3", "mdot": 0.1},
         {"op": "sink", "id": "s4", "junction": "j4", "mdot": 0.1},
